@@ -119,6 +119,11 @@ DateTime = construct.Struct(
         ),
     ),
     construct.If(construct.this.clock_status_byte == 0xFF, construct.Int8ub),
+    construct.Check(
+        lambda ctx: ctx.hour is not None
+        and ctx.minute is not None
+        and ctx.second is not None
+    ),  # time of day must be specified to compute datetime
     "datetime"
     / construct.Computed(
         lambda ctx: datetime.datetime(
